@@ -60,7 +60,7 @@ def main() -> int:
         for f in ("pyproject.toml", "setup.cfg"):
             if os.path.exists(os.path.join("/repo", f)):
                 shutil.copy(os.path.join("/repo", f), troot)
-        r = sh([os.path.join(VERIF, "tools", "baseline.py"), "--repo", troot, "-n", "8"] + list(a.tests))
+        r = sh(["/venv/bin/python", os.path.join(VERIF, "tools", "baseline.py"), "--repo", troot, "-n", "8"] + list(a.tests))
         tail = [l for l in r.stdout.splitlines() if "stable=" in l or "NOT PASSED" in l]
         out["tests"] = tail
         print(f"[{name}] tests {a.tests or 'ALL'}: rc={r.returncode} " + " | ".join(tail[:6]))
